@@ -161,6 +161,9 @@ def _stream3(tier):
             lines.append("g build %s 2e %s,%s" % (mode, hx("x" * l1), hx("ab")))
             lines.append("g build %s 2e %s,%s" % (mode, hx("ab"), hx("x" * l1)))
         lines.append("g build %s 2e %s" % (mode, hx("a.b")))
+        # separators with the high bit set
+        for sepx in ("e9", "80", "ff"):
+            lines.append("g build %s %s %s,%s,%s" % (mode, sepx, hx("ab"), hx("cd"), hx("e")))
     out.append(("path:build", lines + ["g end"]))
     return out
 
